@@ -68,6 +68,7 @@ def register(reg):
         locals_types={"diff_dict": COMP},
         props=["C07", "C08", "C14"])
     register_both_side(reg)
+    register_both_side_fit(reg)
 
 
 def register_both_side(reg):
@@ -108,4 +109,74 @@ def register_both_side(reg):
             "implies(result[1] != 'Both', 'Q' in diff_dict)",
         ],
         modifies=[],
+        props=["C08"])
+
+
+def register_both_side_fit(reg):
+    FB = "synrbl/SynProcessor/rsmi_both_side_process.py"
+    reg.classdecl("BothSideReact", {"react_dict": List(COMP), "product_dict": List(COMP), "unbalance": List(STR), "diff_formula": List(COMP)})
+    reg.contract(
+        FB, "BothSideReact.filter_list_by_indices", params={"data": List(COMP), "indices": List(INT)}, returns=List(COMP), fresh_result=True,
+        requires=["forall(range(0, len(indices)), lambda a: 0 <= indices[a] and indices[a] < len(data))"],
+        ensures=["len(result) == len(indices)", "forall(range(0, len(indices)), lambda a: result[a] is data[indices[a]])"],
+        modifies=[], props=["C08"])
+    U0 = "old(self.unbalance[j])"
+    # what the index comprehension established: the strictly increasing positions of the 'Both' rows (nothing has been written yet)
+    BI = [
+        "forall(range(0, len(both_index)), lambda a: 0 <= both_index[a] and both_index[a] < len(self.unbalance) and self.unbalance[both_index[a]] == 'Both')",
+        "forall(range(0, len(both_index)), lambda a: forall(range(0, a), lambda b: both_index[b] < both_index[a]))",
+        "forall(range(0, len(self.unbalance)), lambda j: implies(self.unbalance[j] == 'Both', exists(range(0, len(both_index)), lambda a: both_index[a] == j)))",
+        "forall(range(0, len(self.unbalance)), lambda j: self.unbalance[j] == old(self.unbalance[j]) and self.diff_formula[j] is old(self.diff_formula[j]))",
+        "len(self.unbalance) == old(len(self.unbalance)) and len(self.diff_formula) == old(len(self.diff_formula)) and self.unbalance is old(self.unbalance) "
+        "and self.diff_formula is old(self.diff_formula)",
+        "old_objects_unchanged('L.ref') and old_objects_unchanged('L.str')",
+    ]
+    reg.contract(
+        FB, "BothSideReact.fit", params={"self": Obj("BothSideReact"), "n_jobs": VAL},
+        returns=Tuple(List(COMP), List(STR)),
+        requires=["len(self.react_dict) == len(self.unbalance) and len(self.product_dict) == len(self.unbalance) and len(self.diff_formula) == len(self.unbalance)",
+                  "not (self.diff_formula is self.react_dict) and not (self.diff_formula is self.product_dict)"],
+        ensures=[
+            "result[0] is self.diff_formula and result[1] is self.unbalance and len(self.unbalance) == old(len(self.unbalance)) and len(self.diff_formula) == old(len(self.diff_formula))",
+            # rows the comparator did not label 'Both' keep their verdict and their imbalance [C08]
+            "forall(range(0, len(self.unbalance)), lambda j: implies({U} != 'Both', self.unbalance[j] == {U} and self.diff_formula[j] is old(self.diff_formula[j])))".format(U=U0),
+            # 'Both' rows get the signed imbalance reactants - products (or its negation when that single-element imbalance is negative)
+            "forall(range(0, len(self.unbalance)), lambda j: implies({U} == 'Both', "
+            "(self.unbalance[j] == 'Reactants' and forall(STR, lambda k: get0(self.diff_formula[j], k) == get0(self.product_dict[j], k) - get0(self.react_dict[j], k))) or "
+            "(self.unbalance[j] != 'Reactants' and forall(STR, lambda k: get0(self.diff_formula[j], k) == get0(self.react_dict[j], k) - get0(self.product_dict[j], k)))))".format(U=U0),
+        ],
+        loops={
+            0: {"inv": [
+                "fresh(diff_dict_both)", "fresh(unbalance_both)", "len(diff_dict_both) == _i", "len(unbalance_both) == _i",
+                "old_objects_unchanged('L.ref') and old_objects_unchanged('L.str')",
+                "forall(range(0, _i), lambda a: (unbalance_both[a] == 'Reactants' and forall(STR, lambda k: get0(diff_dict_both[a], k) == 0 - get0(diff_dict[a], k))) or "
+                "(unbalance_both[a] != 'Reactants' and diff_dict_both[a] is diff_dict[a]))",
+                "forall(range(0, _i), lambda a: allocated(diff_dict_both[a]))",
+            ]},
+            1: {"inv": [
+                "len(self.unbalance) == old(len(self.unbalance)) and len(self.diff_formula) == old(len(self.diff_formula)) and self.unbalance is old(self.unbalance) "
+                "and self.diff_formula is old(self.diff_formula)",
+                "forall(range(0, _i), lambda a: self.diff_formula[both_index[a]] is diff_dict_both[a] and self.unbalance[both_index[a]] == unbalance_both[a])",
+                "forall(range(0, len(self.unbalance)), lambda j: implies(forall(range(0, _i), lambda a: both_index[a] != j), "
+                "self.unbalance[j] == old(self.unbalance[j]) and self.diff_formula[j] is old(self.diff_formula[j])))",
+            ]},
+        },
+        cuts={
+            "diff_dict_both, unbalance_both =": BI + [
+                "len(diff_dict) == len(both_index)",
+                "forall(range(0, len(both_index)), lambda a: allocated(diff_dict[a]) and forall(STR, lambda k: get0(diff_dict[a], k) == "
+                "get0(self.react_dict[both_index[a]], k) - get0(self.product_dict[both_index[a]], k)))",
+            ],
+            "for index, diff_new, unbalance_new in zip": BI + [
+                "len(diff_dict_both) == len(both_index) and len(unbalance_both) == len(both_index)",
+                "forall(range(0, len(both_index)), lambda a: allocated(diff_dict_both[a]) and ("
+                "(unbalance_both[a] == 'Reactants' and forall(STR, lambda k: get0(diff_dict_both[a], k) == "
+                "get0(self.product_dict[both_index[a]], k) - get0(self.react_dict[both_index[a]], k))) or "
+                "(unbalance_both[a] != 'Reactants' and forall(STR, lambda k: get0(diff_dict_both[a], k) == "
+                "get0(self.react_dict[both_index[a]], k) - get0(self.product_dict[both_index[a]], k)))))",
+            ],
+        },
+        modifies=["self.diff_formula", "self.unbalance"],
+        locals_types={"both_index": List(INT), "react_dict_both": List(COMP), "product_dict_both": List(COMP), "diff_dict": List(COMP),
+                      "diff_dict_both": List(COMP), "unbalance_both": List(STR)},
         props=["C08"])
